@@ -103,10 +103,37 @@ theorem valueExpr_value (l : LoopSpec) (env : String → Int) (magic : String) :
     eval env (valueExpr l magic) = valueOf (l.header env) (env magic) := by
   obtain ⟨var, attr, index, ityp, init, cmp, right, bound, positive, post, step⟩ := l
   cases positive <;> cases step <;>
-    simp [valueExpr, valueOf, LoopSpec.header, Header.positiveUpdate, eval, evalBin, eval_wrap, wrap]
+    simp [valueExpr, valueOf, LoopSpec.header, Header.positiveUpdate, eval, evalBin, eval_wrap, wrap_var, wrap_bin]
 
-theorem countExpr_grouped (l : LoopSpec) (hi : Grouped l.init) (hb : Grouped l.bound)
-    (hst : ∀ s, l.step = some s → Grouped s) : Grouped (countExpr l) := by
+/-- How the text of `countExpr l` is read: the C++ builds `1 + (larger - smaller)` but prints
+    `1 + larger - smaller`, which groups as `(1 + larger) - smaller` (same value).  Everything else of
+    the count tree is read as built. -/
+def countRead (l : LoopSpec) : Expr :=
+  let initP := wrap l.init
+  let checkP := wrap l.bound
+  let smaller := if l.positive then initP else checkP
+  let larger := if l.positive then checkP else initP
+  let c := if l.inclusive then Expr.bin "-" (.bin "+" (.lit 1) larger) smaller else Expr.bin "-" larger smaller
+  match l.step with
+  | none => c
+  | some s =>
+    let sP := wrap s
+    Expr.bin "/" (wrap (.bin "-" (.bin "+" c sP) (.lit 1))) sP
+
+theorem countRead_print (l : LoopSpec) : print (countRead l) = print (countExpr l) := by
+  obtain ⟨var, attr, index, ityp, init, cmp, right, bound, positive, post, step⟩ := l
+  cases positive <;> cases cmp <;> cases step <;>
+    simp [countRead, countExpr, LoopSpec.inclusive, print, wrap_bin, String.append_assoc]
+
+theorem countRead_value (l : LoopSpec) (env : String → Int) :
+    eval env (countRead l) = count (l.header env) := by
+  obtain ⟨var, attr, index, ityp, init, cmp, right, bound, positive, post, step⟩ := l
+  cases positive <;> cases cmp <;> cases step <;>
+    simp [countRead, count, LoopSpec.header, LoopSpec.inclusive, Header.positiveUpdate, Header.inclusive,
+          eval, evalBin, eval_wrap, wrap_bin] <;> (try omega) <;> (congr 1; omega)
+
+theorem countRead_grouped (l : LoopSpec) (hi : Grouped l.init) (hb : Grouped l.bound)
+    (hst : ∀ s, l.step = some s → Grouped s) : Grouped (countRead l) := by
   obtain ⟨var, attr, index, ityp, init, cmp, right, bound, positive, post, step⟩ := l
   unfold Grouped at *
   simp only at hi hb
@@ -116,12 +143,12 @@ theorem countExpr_grouped (l : LoopSpec) (hi : Grouped l.init) (hb : Grouped l.b
   cases step with
   | none =>
     cases positive <;> cases cmp <;>
-      simp [countExpr, LoopSpec.inclusive, grouped, prec_bin, prec_paren, prec_lit1, f1, f2, grouped_wrap, hi, hb] <;> omega
+      simp [countRead, LoopSpec.inclusive, grouped, prec_bin, prec_paren, prec_lit1, f1, f2, grouped_wrap, hi, hb] <;> omega
   | some s =>
     have hs : grouped s = true := hst s rfl
     have ps := prec_wrap s
     cases positive <;> cases cmp <;>
-      simp [countExpr, LoopSpec.inclusive, grouped, prec_bin, prec_paren, prec_lit1, f1, f2, f3, f4, grouped_wrap, hi, hb, hs, wrap_bin] <;> omega
+      simp [countRead, LoopSpec.inclusive, grouped, prec_bin, prec_paren, prec_lit1, f1, f2, f3, f4, grouped_wrap, hi, hb, hs, wrap_bin] <;> omega
 
 theorem valueExpr_grouped (l : LoopSpec) (magic : String) (hi : Grouped l.init)
     (hst : ∀ s, l.step = some s → Grouped s) : Grouped (valueExpr l magic) := by
